@@ -132,13 +132,13 @@ def one_history(ns, tid, seed, want_real_update=True):
     st = proj.state(live)
     events.append(dict(tid=tid, seq=seq, ev="Baseline", seed=seed, flavour=flavour, **st))
     seq += 1
-    outcome, exc, sim = "created", "none", None
+    outcome, exc, sim, exc_full = "created", "none", None, ""
     try:
         sim = ns.ModelingUpdate(changes, date)
     except Exception as ex:   # noqa
-        outcome, exc = "raised", f"{type(ex).__name__}: {str(ex)[:120]}"
+        outcome, exc, exc_full = "raised", f"{type(ex).__name__}: {str(ex)[:120]}", str(ex)
     ev = dict(tid=tid, seq=seq, ev="SimCreate", seed=seed, flavour=flavour, outcome=outcome, exc=exc, date_kind=date_kind,
-              expect_ok=expect_ok, recomputed=[],
+              expect_ok=expect_ok, recomputed=[], period_refusal="modeling period" in exc_full,
               hourly_input_changed=any(x[0] == "opt" and x[2] == "starts" for x in edits),
               timeline_shifted=any(x[0] == "link" and x[2] == "country"
                                    and model[x[3]]["opt"]["tz"] != model[model[x[1]]["lnk"]["country"]]["opt"]["tz"] for x in edits),
